@@ -465,13 +465,29 @@ std::unique_ptr<SyncWritableMetricStorage> Meter::RegisterSyncMetricStorage(
   auto view_registry = ctx->GetViewRegistry();
   std::unique_ptr<SyncWritableMetricStorage> storages(new SyncMultiMetricStorage());
 
+  // A further handle for an instrument created before records into the same storages.
+  if (auto existing = FindInstrumentStorages(instrument_descriptor))
+  {
+    for (auto &storage : existing->storages)
+    {
+      // an identical descriptor implies a synchronous instrument, hence a SyncMetricStorage
+      static_cast<SyncMultiMetricStorage *>(storages.get())
+          ->AddStorage(std::static_pointer_cast<SyncMetricStorage>(storage));
+    }
+    return storages;
+  }
+  auto &registered_storages =
+      storage_registry_
+          .emplace(instrument_descriptor.name_, InstrumentStorages{instrument_descriptor, {}})
+          ->second.storages;
+
 #ifdef ENABLE_METRICS_EXEMPLAR_PREVIEW
   auto exemplar_filter_type = ctx->GetExemplarFilter();
 #endif
 
   auto success = view_registry->FindViews(
       instrument_descriptor, *scope_,
-      [this, &instrument_descriptor, &storages
+      [&instrument_descriptor, &storages, &registered_storages
 #ifdef ENABLE_METRICS_EXEMPLAR_PREVIEW
        ,
        exemplar_filter_type
@@ -496,7 +512,7 @@ std::unique_ptr<SyncWritableMetricStorage> Meter::RegisterSyncMetricStorage(
                                  instrument_descriptor),
 #endif
             view.GetAggregationConfig()));
-        storage_registry_[instrument_descriptor.name_] = storage;
+        registered_storages.push_back(storage);
         multi_storage->AddStorage(storage);
         return true;
       });
@@ -525,13 +541,20 @@ std::unique_ptr<AsyncWritableMetricStorage> Meter::RegisterAsyncMetricStorage(
   auto view_registry = ctx->GetViewRegistry();
   std::unique_ptr<AsyncWritableMetricStorage> storages(new AsyncMultiMetricStorage());
 
+  // Every observable handle keeps storages of its own (a storage turns the totals observed by the
+  // handle's callbacks into deltas against what it observed before); all of them are collected.
+  auto &registered_storages =
+      storage_registry_
+          .emplace(instrument_descriptor.name_, InstrumentStorages{instrument_descriptor, {}})
+          ->second.storages;
+
 #ifdef ENABLE_METRICS_EXEMPLAR_PREVIEW
   auto exemplar_filter_type = ctx->GetExemplarFilter();
 #endif
 
   auto success = view_registry->FindViews(
       instrument_descriptor, *GetInstrumentationScope(),
-      [this, &instrument_descriptor, &storages
+      [&instrument_descriptor, &storages, &registered_storages
 #ifdef ENABLE_METRICS_EXEMPLAR_PREVIEW
        ,
        exemplar_filter_type
@@ -554,7 +577,7 @@ std::unique_ptr<AsyncWritableMetricStorage> Meter::RegisterAsyncMetricStorage(
                                  instrument_descriptor),
 #endif
             view.GetAggregationConfig()));
-        storage_registry_[instrument_descriptor.name_] = storage;
+        registered_storages.push_back(storage);
         static_cast<AsyncMultiMetricStorage *>(storages.get())->AddStorage(storage);
         return true;
       });
@@ -585,15 +608,36 @@ std::vector<MetricData> Meter::Collect(CollectorHandle *collector,
     return std::vector<MetricData>{};
   }
   std::lock_guard<opentelemetry::common::SpinLockMutex> guard(storage_lock_);
-  for (auto &metric_storage : storage_registry_)
+  for (auto &instrument : storage_registry_)
   {
-    metric_storage.second->Collect(collector, ctx->GetCollectors(), ctx->GetSDKStartTime(),
-                                   collect_ts, [&metric_data_list](const MetricData &metric_data) {
-                                     metric_data_list.push_back(metric_data);
-                                     return true;
-                                   });
+    for (auto &metric_storage : instrument.second.storages)
+    {
+      metric_storage->Collect(collector, ctx->GetCollectors(), ctx->GetSDKStartTime(), collect_ts,
+                              [&metric_data_list](const MetricData &metric_data) {
+                                metric_data_list.push_back(metric_data);
+                                return true;
+                              });
+    }
   }
   return metric_data_list;
+}
+
+Meter::InstrumentStorages *Meter::FindInstrumentStorages(
+    const InstrumentDescriptor &instrument_descriptor)
+{
+  auto range = storage_registry_.equal_range(instrument_descriptor.name_);
+  for (auto it = range.first; it != range.second; ++it)
+  {
+    const InstrumentDescriptor &registered = it->second.instrument_descriptor;
+    if (registered.type_ == instrument_descriptor.type_ &&
+        registered.value_type_ == instrument_descriptor.value_type_ &&
+        registered.unit_ == instrument_descriptor.unit_ &&
+        registered.description_ == instrument_descriptor.description_)
+    {
+      return &it->second;
+    }
+  }
+  return nullptr;
 }
 
 }  // namespace metrics
